@@ -155,6 +155,11 @@ Theorem C01_src_new_and_copy_file_order :
   x_copy_new_steps = copy_new_steps /\ x_copy_file_steps = copy_file_steps /\ x_queue_file_blocks_steps = queue_file_blocks_steps.
 Proof. split; [exact x_copy_new_steps_ok|split; [exact x_copy_file_steps_ok|exact x_queue_file_blocks_steps_ok]]. Qed.
 
+(* CopyHandle::copy_bytes (the parfile cursor loop), translated from the current source, is the model's loop *)
+Theorem C01_src_copy_bytes_whole_loop : forall fuel bs len cur ans,
+  x_copy_bytes fuel len bs cur ans = copy_bytes fuel bs len 0 cur ans.
+Proof. exact x_copy_bytes_ok. Qed.
+
 Print Assumptions C01_dest_fresh_after_new.
 Print Assumptions C01_blocks_partition.
 Print Assumptions C01_copy_bytes_exact.
@@ -166,3 +171,4 @@ Print Assumptions C01_src_copy_bytes_loop.
 Print Assumptions C01_src_noprogress_block_size.
 Print Assumptions C01_every_schedule_every_byte_once.
 Print Assumptions C01_src_new_and_copy_file_order.
+Print Assumptions C01_src_copy_bytes_whole_loop.
